@@ -45,6 +45,9 @@ func ReadIndex(r io.Reader, n int32, typ string) (Index, error) {
 
 func readIndices(r io.Reader, n int32, typ string) ([]RefIndex, error) {
 	var err error
+	if n < 0 {
+		return nil, fmt.Errorf("%s: invalid reference count: %d", typ, n)
+	}
 	idx := make([]RefIndex, n)
 	for i := range idx {
 		idx[i].Bins, idx[i].Stats, err = readBins(r, typ)
@@ -67,6 +70,9 @@ func readBins(r io.Reader, typ string) ([]Bin, *ReferenceStats, error) {
 	}
 	if n == 0 {
 		return nil, nil, nil
+	}
+	if n < 0 {
+		return nil, nil, fmt.Errorf("%s: invalid bin count: %d", typ, n)
 	}
 	var stats *ReferenceStats
 	bins := make([]Bin, n)
@@ -105,6 +111,9 @@ func readBins(r io.Reader, typ string) ([]Bin, *ReferenceStats, error) {
 func readChunks(r io.Reader, n int32, typ string) ([]bgzf.Chunk, error) {
 	if n == 0 {
 		return nil, nil
+	}
+	if n < 0 {
+		return nil, fmt.Errorf("%s: invalid chunk count: %d", typ, n)
 	}
 	chunks := make([]bgzf.Chunk, n)
 	var buf [16]byte
@@ -158,6 +167,9 @@ func readIntervals(r io.Reader, typ string) ([]bgzf.Offset, error) {
 	}
 	if n == 0 {
 		return nil, nil
+	}
+	if n < 0 {
+		return nil, fmt.Errorf("%s: invalid interval count: %d", typ, n)
 	}
 	offsets := make([]bgzf.Offset, n)
 	// chunkSize determines the number of offsets consumed by each binary.Read.
